@@ -192,6 +192,11 @@ func (b *exampleBuilder) buildExampleForMixedValueNode(node *ischema.MixedValueN
 			return ex, err
 		}
 	}
+	if ischema.IsNullableNode(node) {
+		// Every alternative is cut off as a recursion (@a: "@a // {nullable: true}"):
+		// null is the value that ends it.
+		return []byte("null"), nil
+	}
 	return nil, nil
 }
 
